@@ -10,6 +10,7 @@ import (
 	"sort"
 	"strconv"
 	"strings"
+	"time"
 )
 
 const propFile = "/var/tmp/c17-props/p.properties"
@@ -26,6 +27,7 @@ var envTable = map[string]string{
 	"C17_EP":    "127.0.0.3:7070",
 	"C17_BIG":   "99999999999999999999",
 	"C17_EMPTY": "",
+	"C17_300":   "300",
 }
 
 // C17_UNSET is never set.
@@ -579,7 +581,9 @@ func (w *walker) scalarCases(fpath string, f flatField, fk string, tags []string
 		// the confirmed defect: -1 into an unsigned field
 		w.add(gcase{kind: "ph-neg", path: fpath, at: at, fk: fk, raw: "-1", exp: "cast", cfg: set(ph("env", "C17_NEG")), uses: true})
 		w.add(gcase{kind: "ph-big", path: fpath, at: at, fk: fk, raw: envTable["C17_BIG"], exp: "cast", cfg: set(ph("env", "C17_BIG")), uses: true})
+		w.add(gcase{kind: "ph-300", path: fpath, at: at, fk: fk, raw: "300", exp: "cast", cfg: set(ph("env", "C17_300")), uses: true})
 	case "int":
+		w.add(gcase{kind: "ph-300", path: fpath, at: at, fk: fk, raw: "300", exp: "cast", cfg: set(ph("env", "C17_300")), uses: true})
 		if !minTag {
 			w.add(gcase{kind: "ph-neg", path: fpath, at: at, fk: fk, raw: "-1", exp: "cast", cfg: set(ph("property", "neg")), uses: true})
 		}
@@ -619,9 +623,51 @@ func (w *walker) walkPlugin(fpath string, iface reflect.Type, set func(any) any,
 
 // ---- rendering a case as an input line
 
+// synthConfig: field kinds that no registered component uses (narrow integers, float32, pointers to scalars, nested
+// containers), decoded by the same real config.DecodeAndValidate
+type synthConfig struct {
+	U8   uint8   `config:"u8"`
+	U16  uint16  `config:"u16"`
+	U32  uint32  `config:"u32" validate:"min=1"`
+	U    uint    `config:"u"`
+	I8   int8    `config:"i8"`
+	I16  int16   `config:"i16"`
+	I32  int32   `config:"i32"`
+	F32  float32 `config:"f32"`
+	F64  float64
+	Name string        `validate:"required"`
+	Wait time.Duration `config:"wait" validate:"min-time=1ms"`
+	On   bool
+	Sub  *synthSub           `config:"sub"`
+	Subs []synthSub          `config:"subs" validate:"dive"`
+	ByK  map[string]synthSub `config:"by-k"`
+	Tags map[string]string   `config:"tags"`
+	Any  interface{}         `config:"any"`
+	Emb  synthEmb            `config:",squash"`
+}
+
+type synthSub struct {
+	Level int    `config:"level" validate:"min=0"`
+	Label string `config:"label"`
+}
+
+type synthEmb struct {
+	Depth uint16 `config:"depth"`
+	Mode  string `config:"mode" validate:"omitempty,eq=a|eq=b"`
+}
+
+func synthDefault() *synthConfig {
+	return &synthConfig{U8: 8, U16: 16, U32: 32, U: 1, I8: -8, I16: -16, I32: 32, F32: 0.5, F64: 1.5, Name: "n", Wait: time.Second,
+		On: true, Sub: &synthSub{Level: 3, Label: "l"}, Emb: synthEmb{Depth: 2, Mode: "a"}}
+}
+
 func rootTarget(root string) (reflect.Type, reflect.Value) {
 	if root == "cli" {
 		c := cliDefault()
+		return c.Type().Elem(), c
+	}
+	if root == "synth" {
+		c := reflect.ValueOf(synthDefault())
 		return c.Type().Elem(), c
 	}
 	parts := strings.SplitN(root, "|", 3)
@@ -635,8 +681,6 @@ func rootTarget(root string) (reflect.Type, reflect.Value) {
 }
 
 func (c gcase) line() string {
-	t, d := rootTarget(c.root)
-	sch := schemaOf(t, d.Elem(), []any{c.cfg})
 	env, props := "m()", "m()"
 	if c.uses {
 		env, props = envTerm(), propsTerm()
@@ -647,18 +691,85 @@ func (c gcase) line() string {
 		}
 		return s
 	}
-	return fmt.Sprintf("kind=%s root=%s path=%s exp=%s at=%s fk=%s raw=%s want=%s env=%s props=%s cfg=%s sch=%s",
-		c.kind, enc(c.root), enc(c.path), c.exp, enc(c.at), opt(c.fk), tstr(c.raw), opt(c.want), env, props, valTerm(c.cfg), sch)
+	return fmt.Sprintf("kind=%s root=%s path=%s exp=%s at=%s fk=%s raw=%s want=%s env=%s props=%s cfg=%s",
+		c.kind, enc(c.root), enc(c.path), c.exp, enc(c.at), opt(c.fk), tstr(c.raw), opt(c.want), env, props, valTerm(c.cfg))
 }
 
 func allRoots() []string {
-	roots := []string{"cli"}
+	roots := []string{"cli", "synth"}
 	for _, iface := range regOrder {
 		for _, n := range altNames(iface) {
 			roots = append(roots, "alt|"+iface.String()+"|"+n)
 		}
 	}
 	return roots
+}
+
+// deepMerge overlays b on a (mappings key-wise, lists index-wise, otherwise b wins): two single mutations of the same
+// base configuration become one configuration carrying both
+func deepMerge(a, b any) any {
+	switch x := a.(type) {
+	case map[string]any:
+		y, ok := b.(map[string]any)
+		if !ok {
+			return b
+		}
+		out := cloneMap(x)
+		for k, v := range y {
+			if old, ok := out[k]; ok {
+				out[k] = deepMerge(old, v)
+			} else {
+				out[k] = v
+			}
+		}
+		return out
+	case []any:
+		y, ok := b.([]any)
+		if !ok {
+			return b
+		}
+		n := len(x)
+		if len(y) > n {
+			n = len(y)
+		}
+		out := make([]any, n)
+		for i := range out {
+			switch {
+			case i < len(x) && i < len(y):
+				out[i] = deepMerge(x[i], y[i])
+			case i < len(x):
+				out[i] = x[i]
+			default:
+				out[i] = y[i]
+			}
+		}
+		return out
+	}
+	return b
+}
+
+// combos: several mutations at once (errors accumulate, lazily filled factories defer): no demand of the property is
+// attached, the real outcome is compared with the model's
+func combos(r *rand.Rand, cases []gcase, n int) []string {
+	var out []string
+	if len(cases) < 2 {
+		return nil
+	}
+	for i := 0; i < n; i++ {
+		k := 2 + r.Intn(3)
+		c := cases[r.Intn(len(cases))]
+		cfg := c.cfg
+		uses := c.uses
+		path := c.kind + ":" + c.path
+		for j := 1; j < k; j++ {
+			d := cases[r.Intn(len(cases))]
+			cfg = deepMerge(cfg, d.cfg)
+			uses = uses || d.uses
+			path += "+" + d.kind + ":" + d.path
+		}
+		out = append(out, gcase{kind: "combo", root: c.root, path: path, at: "-", exp: "none", cfg: cfg, uses: uses}.line())
+	}
+	return out
 }
 
 func genCases(r *rand.Rand, tier string) []string {
@@ -679,6 +790,14 @@ func genCases(r *rand.Rand, tier string) []string {
 			}
 			out = append(out, c.line())
 		}
+		nc := 4
+		if root == "cli" || root == "synth" {
+			nc = 60
+		}
+		if tier == "thorough" {
+			nc *= 60
+		}
+		out = append(out, combos(r, w.out, nc)...)
 	}
 	out = append(out, cliCases(r, tier)...)
 	return out
